@@ -2032,8 +2032,10 @@ class AutoImporter:
                 def run_with_debugger_with_autoimport(code, code_ns,
                                                       filename=None,
                                                       *args, **kwargs):
-                    db = ImportDB.get_default(filename or ".")
-                    auto_import(code, namespaces=[code_ns], db=db)
+                    def auto_import_for_debug_statement():
+                        db = ImportDB.get_default(filename or ".")
+                        auto_import(code, namespaces=[code_ns], db=db)
+                    self._safe_call(auto_import_for_debug_statement)
                     with HookPdbCtx():
                         return __original__(code, code_ns, filename,
                                             *args, **kwargs
